@@ -145,6 +145,8 @@ type HarnessStats struct {
 	Witnesses []Witness
 	Msgs      map[string]int // inconclusive messages
 	Races     []Race
+	ForkSites map[string]int
+	MergeFails map[string]int
 	WallSecs  float64
 	mu        sync.Mutex
 }
@@ -210,6 +212,10 @@ func (p *Program) Explore(fns []*ssa.Function, cfgs []Config, opt ExploreOpts) (
 			}
 			defer w.Close()
 			w.i.Debug, w.i.Trace = opt.Debug, opt.Trace
+			if opt.Trace {
+				w.i.ForkSites = map[string]int{}
+				w.i.MergeFails = map[string]int{}
+			}
 			inited := map[*ssa.Package]bool{}
 			for {
 				mu.Lock()
@@ -285,6 +291,20 @@ func (p *Program) Explore(fns []*ssa.Function, cfgs []Config, opt ExploreOpts) (
 				switch res.Status {
 				case "unsupported", "budget", "unknown":
 					hs.Msgs[res.Status+": "+res.Msg]++
+				}
+				if i.ForkSites != nil {
+					if hs.ForkSites == nil {
+						hs.ForkSites = map[string]int{}
+						hs.MergeFails = map[string]int{}
+					}
+					for k, n := range i.ForkSites {
+						hs.ForkSites[k] += n
+					}
+					for k, n := range i.MergeFails {
+						hs.MergeFails[k] += n
+					}
+					i.ForkSites = map[string]int{}
+					i.MergeFails = map[string]int{}
 				}
 				hs.Findings = append(hs.Findings, i.findings...)
 				hs.Races = append(hs.Races, i.Races...)
